@@ -7,7 +7,8 @@ CLAIMED['C19'] = dict(
 CLAIMED['C02'] = dict(
     text='Proof (per function, modular): every loader function and read_inline/crossline/zslice/subvolume/volume/subplane/get_trace return exactly '
          'the slice of the spec-defined volume V they denote, for all cube shapes and arguments, per valid (rate, blockshape) setting '
-         '(quick: representative settings; thorough: all 401). Diagonals, coordinate lookups, accessors, xarray: not yet under contract.',
+         '(quick: representative settings; thorough: all 401). Also under contract: both diagonal families, coordinate lookup (coord_to_index) and reads by line number, subvolume[a:b:c, ...] on ascending axes, accessor construction. '
+         'xarray adapter, tools.cube and z-slice/trace by coordinate: not under contract.',
     note='AX-ZFP-DEC, AX-NP-INDEX, AX-FILE, AX-POOL, AX-LRU assumed; reader object state: SgzReader.__init__ is under contract for the file-handle route (ReaderInit: state = mk_reader state for conforming files); ENGINE pyvc + z3/cvc5 trusted')
 CLAIMED['C07'] = dict(
     text='Proof: ghost read log of every loader function / read method under contract equals exactly the ranges the property allows '
@@ -17,7 +18,7 @@ CLAIMED['C07'] = dict(
 CLAIMED['C14'] = dict(
     text='Proof: for read_inline/crossline/zslice/subvolume/volume/subplane/get_trace: raises IndexError/WrongDimensionalityError iff an argument is '
          'outside the real extent (both directions, all paths), otherwise every element is a real stored sample.',
-    note='diagonals, number/coordinate lookups, header reads and accessors not yet under contract; same trusted base as C02')
+    note='also: diagonals, coordinate lookup / reads by line number, subvolume[...] subscripts, header reads; irregular ordinals follow numpy sequence semantics; same trusted base as C02')
 CLAIMED['C03'] = dict(
     text='Proof of the header-assembly, version-codec and header-parsing part: make_header words = spec expressions (exact block count, array length, '
          'counts, version word) for every valid setting and all shapes; version encode/decode bijection and order (symbolic); reader parsers read the same words. '
@@ -42,8 +43,8 @@ CLAIMED['C10'] = dict(
     note='coordinate front end (get_index_range) not under contract; mk_reader object state assumed; AX-FILE for the output handle')
 CLAIMED['C13'] = dict(
     text='Proof of the subscript semantics of the accessors (ordinal slices/ints with negative wrap; line-number slices with all default combinations on ascending and '
-         'descending axes; len) against spec functions transcribed from segyio/CPython. Value structure (shapes, header dict contents, bin/text, attributes, tools, subvolume) '
-         'is not covered by this check.',
+         'descending axes; len) against spec functions transcribed from segyio/CPython. Accessor construction binds each accessor to the count, axis and read method of its kind (those read methods are under the value contracts of C02/C04); subvolume[a:b:c, ...] by line number with steps. '
+         'bin/text, attributes, tools.* are not covered by this check.',
     note='AX-SEGYIO-ACC transcription (hash pinned); values_function abstract; line numbers >= 1')
 CLAIMED['C17'] = dict(
     text='Proof (fault mode: any range read may raise or come back short/empty): for the range-read primitives + choke point (file and blob) and every loader function / '
